@@ -361,11 +361,25 @@ func (s *ExServer) Run() error {
 	}
 	one := big.NewInt(1)
 	gaKnown := true // whether the server knows the discrete log of g_a
+	var fixedKey *big.Int // the shared key when it does not depend on g_b (g_a congruent to 0 or 1 mod p)
+	twoP := new(big.Int).Lsh(prime, 1)
 	switch s.Mut {
+	case "ga-plus-p":
+		// the honest g_a shifted by the modulus: same residue (the server still knows
+		// its discrete log, so every later hash is right) but outside 1 < g_a < p-1
+		ga, s.Applied = new(big.Int).Add(ga, prime), true
+	case "ga-2p":
+		ga, s.Applied, gaKnown, fixedKey = twoP, true, false, big.NewInt(0)
+	case "ga-2p+1":
+		ga, s.Applied, gaKnown, fixedKey = new(big.Int).Add(twoP, one), true, false, big.NewInt(1)
+	case "ga-p+1":
+		ga, s.Applied, gaKnown, fixedKey = new(big.Int).Add(prime, one), true, false, big.NewInt(1)
+	case "ga-2^2048-1":
+		ga, s.Applied, gaKnown = new(big.Int).Sub(new(big.Int).Lsh(one, 2048), one), true, false
 	case "ga-0":
 		ga, s.Applied, gaKnown = big.NewInt(0), true, false
 	case "ga-1":
-		ga, s.Applied, gaKnown = big.NewInt(1), true, false
+		ga, s.Applied, gaKnown, fixedKey = big.NewInt(1), true, false, big.NewInt(1)
 	case "ga-p-1":
 		ga, s.Applied, gaKnown = new(big.Int).Sub(prime, one), true, false
 	case "ga-p":
@@ -462,6 +476,8 @@ func (s *ExServer) Run() error {
 	var key [256]byte
 	if gaKnown && prime.Sign() > 0 {
 		new(big.Int).Exp(gb, a, prime).FillBytes(key[:])
+	} else if fixedKey != nil {
+		fixedKey.FillBytes(key[:])
 	}
 	s.mu.Lock()
 	s.AuthKey = key
@@ -514,6 +530,7 @@ var Mutations = []string{
 	"prime-composite", "prime-not-safe", "prime-2047", "prime-2049",
 	"g-bad-residue", "g-0", "g-1", "g-8", "g-neg",
 	"ga-0", "ga-1", "ga-p-1", "ga-p", "ga-2^1984", "ga-p-2^1984",
+	"ga-plus-p", "ga-2p", "ga-2p+1", "ga-p+1", "ga-2^2048-1",
 	"hash1-wrong", "dhgen-retry", "dhgen-fail", "dhgen-nonce", "dhgen-server-nonce",
 	"replay-previous-run",
 }
